@@ -2423,6 +2423,12 @@ namespace ST
             if (!splitter)
                 return result;
 
+            // An empty splitter never matches anything
+            if (!*splitter) {
+                result.push_back(*this);
+                return result;
+            }
+
             // Performance improvement when splitter is "safe"
             utf_validation_t validation = assume_valid;
             const char *cp = splitter;
@@ -2459,6 +2465,12 @@ namespace ST
                                   case_sensitivity_t cs = case_sensitive) const
         {
             std::vector<string> result;
+
+            // An empty splitter never matches anything
+            if (splitter.empty()) {
+                result.push_back(*this);
+                return result;
+            }
 
             const char *next = c_str();
             const char *endp = next + size();
